@@ -142,6 +142,18 @@ def oracle_c16(eng, out, st):
             eng.ensure_model(st)
             return ('bug', E.Bug('assert', 'C16: an observing operation prepared a non-read statement: ' + e[1][:100], st.model))
     return None
+def oracle_c16_load(eng, out, st):
+    """loading / database_exists() / verify(): nothing but reads, ATTACH / DETACH of the library's own files and (for completeness) nothing at close"""
+    q = st.env.get('sq')
+    if q is None: return None
+    for e in q.log:
+        if e[0] != 'prepare': continue
+        k = models_sqlite.classify(e[1]); w = e[1].strip().upper().split()[0] if e[1].strip() else ''
+        if k in ('write', 'txn', 'other') or (k == 'ddl' and w not in ('ATTACH', 'DETACH')):
+            eng.ensure_model(st)
+            return ('bug', E.Bug('assert', 'C16: loading / observing the library as a whole executed a non-read statement: ' + e[1][:100], st.model))
+    st.log.append(('reach', 'statements-checked'))
+    return None
 def oracle_c14(eng, out, st):
     """after an injected statement failure: the call threw, no transaction is left open, nothing was committed"""
     q = st.env.get('sq')
